@@ -53,10 +53,12 @@ NumSpellings(v) ==
     LET d == v.m * Pow10(v.e)  ds == RenderInt(d) IN
     <<ds, ds \o <<46, 48>>, ds \o <<101, 48>>, ds \o <<69, 43, 48>>>>
     \o (IF d # 0 /\ d % 10 = 0 THEN <<RenderInt(d \div 10) \o <<101, 49>>, RenderInt(d \div 10) \o <<46, 48, 69, 49>>>> ELSE <<>>)
+    \o (IF d >= 100 /\ d % 10 = 0 THEN <<RenderInt(d \div 100) \o <<46, 48 + ((d \div 10) % 10), 101, 50>>>> ELSE <<>>)      \* 230 = 2.3e2
     \o (IF d # 0 /\ d % 100 = 0 THEN <<RenderInt(d \div 100) \o <<101, 50>>, RenderInt(d \div 100) \o <<101, 43, 50>>, RenderInt(d \div 100) \o <<46, 48, 48, 101, 48, 50>>>> ELSE <<>>)
   ELSE <<RenderNum(v)>>
        \o (IF v.e = 0 - 1 /\ v.m >= 0 THEN <<RenderInt(v.m \div 10) \o <<46, 48 + (v.m % 10)>>>> ELSE <<>>)   \* 15e-1 = 1.5
        \o (IF v.e = 0 THEN <<RenderInt(v.m) \o <<46, 48>>>> ELSE <<>>)
+       \o (IF v.e = 0 - 1 /\ v.m >= 0 /\ v.m < 10 THEN <<<<48, 46, 48 + v.m>>, <<48 + v.m, 48, 101, 45, 50>>>> ELSE <<>>)       \* 3e-1 = 0.3 = 30e-2
 
 (* ---------- character spellings ------------------------------------------------- *)
 HexL(n) == IF n < 10 THEN 48 + n ELSE 87 + n
